@@ -2,16 +2,26 @@
 
 package main
 
-// Mode "slow" (C05): the hand-off of an accepted login that NOBODY takes for a while, with a context that is never
+// Mode "slow" (C05, C10, C19): the hand-off of an accepted login that NOBODY takes for a while, with a context that is never
 // cancelled.  The property: "then, unless its context is cancelled, forwards exactly one login".  The correlator
 // (the only receiver of the unbuffered logins channel) can be busy for seconds (flushing a session's backlog
 // through a slow writer); the login must still be there when it comes back.  Each scenario has its own processor
 // (NewSshdProcessor, then ProcessSshdLogEntry or SyslogIngester.Process), its own channel and writer; all
 // scenarios of a stage run concurrently, so the stage takes about as long as its longest delay.  Once a scenario
 // fails, the longer ones are abandoned (not judged): the shortest failing delay is the replay.
+//
+// Time-triggered behaviour in the hand-off path is a class of its own (a deadline that drops the login, a stall timer
+// that does something while waiting, a retry): the waits span several magnitudes (0.15 s ... 61 s, see
+// checks/registry.py) and what must hold is stated per property, on the same observation:
+//   C05  forward:*   exactly one login is there when the correlator comes back, it is the written event, the call returns nil
+//   C10  output:*    what reached the writer while the hand-off was pending and after it: the line's event EXACTLY ONCE
+//                    (a pending hand-off is no reason to write it again), each write one whole JSON line, and the
+//                    UserLogin written BEFORE the hand-off completes
+//   C19  metrics:*   one counter increment per emitted event, under the success outcome
 
 import (
 	"context"
+	"encoding/json"
 	"errors"
 	"fmt"
 	"sort"
@@ -49,17 +59,48 @@ type slowObs struct {
 	Events        int    `json:"events"`
 	EventOK       bool   `json:"event_succeeded"`
 	Aborted       bool   `json:"aborted,omitempty"`
+	// C10: the emitted events in write order - same: this write carries the same event (type, outcome, subjects, source,
+	// target; the time stamp aside) as an earlier one; identical: the serialised line is byte for byte an earlier one
+	EventsAtHandoff int            `json:"events_written_when_the_login_was_taken"` // -1: no login was taken
+	Writes          []slowWrite    `json:"writes,omitempty"`
+	Metrics         map[string]int `json:"metrics,omitempty"` // "method/outcome" -> increments of this scenario's own registry
+	StillBlocked    bool           `json:"call_never_returned,omitempty"`
+}
+
+type slowWrite struct {
+	AtMs      int    `json:"at_ms"`
+	Rejected  bool   `json:"write_failed,omitempty"`
+	Same      bool   `json:"same_event_as_an_earlier_write,omitempty"`
+	Identical bool   `json:"line_identical_to_an_earlier_one,omitempty"`
+	BadJSON   string `json:"not_one_json_line,omitempty"`
+}
+
+// what identifies an event whatever its time stamp
+func eventIdentity(e obsEvent) string {
+	port := ""
+	if e.Port != nil {
+		port = *e.Port
+	}
+	return fmt.Sprint(e.Type, "|", e.OK, "|", e.Comp, "|", e.SrcType, "|", e.Src, "|", port, "|", e.Subjects, "|", e.Target, "|", e.Data)
 }
 
 // generous bounds for steps that take microseconds on a correct implementation (the machine may be loaded)
 const slowStep = 10 * time.Second
 
 func runSlow(sc slowCase, abort <-chan struct{}) slowObs {
-	o := slowObs{ReturnedAfter: -1}
+	o := slowObs{ReturnedAfter: -1, EventsAtHandoff: -1}
 	seq := 0
 	enc := &encRec{seq: &seq, wrote: make(chan struct{}, 8)}
 	logins := make(chan common.RemoteUserLogin) // unbuffered, as in cmd/namedpipe.go
-	pm := metrics.NewPrometheusMetricsProviderForRegisterer(prometheus.NewRegistry())
+	reg := prometheus.NewRegistry()
+	pm := metrics.NewPrometheusMetricsProviderForRegisterer(reg)
+	var writeAt []time.Time // when each Encode happened (appended under enc's own ordering: one processor goroutine)
+	var writeMu sync.Mutex
+	enc.onWrite = func() {
+		writeMu.Lock()
+		writeAt = append(writeAt, time.Now())
+		writeMu.Unlock()
+	}
 	p := sshd.NewSshdProcessor(context.Background(), logins, nodeName, machineID, auditevent.NewAuditEventWriter(enc), pm)
 	ctx, cancel := context.WithCancel(context.Background()) // cancelled only when the scenario is over
 	defer cancel()
@@ -101,7 +142,7 @@ func runSlow(sc slowCase, abort <-chan struct{}) slowObs {
 		finish(ret)
 	case <-time.After(slowStep):
 	}
-	o.EventsBefore = len(emitted(enc.events))
+	o.EventsBefore = len(emitted(enc.snapshot()))
 	// 2. nobody receives for DelayMs; the context stays live
 	if !returned {
 		select {
@@ -126,8 +167,10 @@ func runSlow(sc slowCase, abort <-chan struct{}) slowObs {
 			o.Logins++
 			if o.Logins == 1 {
 				o.PID, o.Cred = l.PID, l.CredUserID
-				if n := len(enc.events); n > 0 {
-					o.SameEvt = l.Source == enc.events[n-1].ptr && !enc.events[n-1].Failed
+				evs := enc.snapshot()
+				o.EventsAtHandoff = len(emitted(evs))
+				if n := len(evs); n > 0 {
+					o.SameEvt = l.Source == evs[n-1].ptr && !evs[n-1].Failed
 				}
 			}
 			return true
@@ -155,24 +198,129 @@ func runSlow(sc slowCase, abort <-chan struct{}) slowObs {
 		select {
 		case <-done:
 		case <-time.After(slowStep):
+			o.StillBlocked = true
 		}
 	}
-	em := emitted(enc.events)
+	all := enc.snapshot()
+	em := emitted(all)
 	o.Events = len(em)
 	if len(em) > 0 {
 		o.EventOK = em[0].OK
 	}
+	writeMu.Lock()
+	at := append([]time.Time(nil), writeAt...)
+	writeMu.Unlock()
+	seenID, seenRaw := map[string]bool{}, map[string]bool{}
+	for i, e := range all {
+		w := slowWrite{AtMs: -1, Rejected: e.Failed}
+		if i < len(at) {
+			w.AtMs = int(at[i].Sub(t0) / time.Millisecond)
+		}
+		if !e.Failed {
+			id := eventIdentity(e)
+			w.Same, w.Identical = seenID[id], seenRaw[e.raw]
+			seenID[id], seenRaw[e.raw] = true, true
+			var probe map[string]any
+			switch {
+			case strings.ContainsAny(e.raw, "\n\r"):
+				w.BadJSON = "the serialised event holds a raw line break"
+			case json.Unmarshal([]byte(e.raw), &probe) != nil:
+				w.BadJSON = "the serialised event is not one JSON object"
+			}
+		}
+		o.Writes = append(o.Writes, w)
+	}
+	if !o.StillBlocked { // the processor goroutine is gone: the registry is quiet
+		o.Metrics = map[string]int{}
+		for k, v := range counters(reg) {
+			if v != 0 {
+				o.Metrics[k] = int(v)
+			}
+		}
+	}
 	return o
 }
 
-func judgeSlow(sc slowCase, o slowObs) []failure {
+// judgeSlow: the failures of the property's own oracle (C05: forward:*, C10: output:*, C19: metrics:*).
+func judgeSlow(prop string, sc slowCase, o slowObs) []failure {
+	var fs []failure
+	want := map[string]string{"C05": "forward:", "C10": "output:", "C19": "metrics:"}[prop]
+	for _, f := range judgeSlowAll(sc, o) {
+		if want == "" || strings.HasPrefix(f.key, want) {
+			fs = append(fs, f)
+		}
+	}
+	return fs
+}
+
+func judgeSlowAll(sc slowCase, o slowObs) []failure {
 	if o.Aborted || !sc.Gen.Forward {
 		return nil
 	}
-	pid, ok := positiveDecimal(sc.Tok)
-	if !ok {
+	if _, ok := positiveDecimal(sc.Tok); !ok {
 		return nil
 	}
+	return append(append(judgeSlowForward(sc, o), judgeSlowOutput(sc, o)...), judgeSlowMetrics(sc, o)...)
+}
+
+// C10: the output while a hand-off is pending
+func judgeSlowOutput(sc slowCase, o slowObs) []failure {
+	var fs []failure
+	line := sc.Gen.Line
+	var times []string
+	n := 0
+	for _, w := range o.Writes {
+		if !w.Rejected {
+			n++
+			times = append(times, fmt.Sprintf("%d ms", w.AtMs))
+		}
+	}
+	for i, w := range o.Writes {
+		if w.BadJSON != "" {
+			fs = append(fs, failure{"output:slow-handoff:not-json-line", fmt.Sprintf("accepted authentication %q, hand-off pending for %d ms: write %d of the event: %s", line, sc.DelayMs, i+1, w.BadJSON)})
+			break
+		}
+	}
+	for _, w := range o.Writes {
+		if w.Same {
+			how := "the same event with another time stamp"
+			if w.Identical {
+				how = "byte for byte the same line"
+			}
+			fs = append(fs, failure{"output:slow-handoff:duplicate", fmt.Sprintf("accepted authentication %q: while nobody took the login for %d ms (context live) the UserLogin event was written %d times (at %s after the call began; %s): "+
+				"the output holds the event twice", line, sc.DelayMs, n, strings.Join(times, ", "), how)})
+			break
+		}
+	}
+	if o.Logins > 0 && o.EventsAtHandoff == 0 {
+		fs = append(fs, failure{"output:slow-handoff:login-after-handoff", fmt.Sprintf("accepted authentication %q: when the correlator took the login (after %d ms) no UserLogin event had been written yet: "+
+			"a UserAction carrying this identity could precede its UserLogin", line, sc.DelayMs)})
+	}
+	return fs
+}
+
+// C19: one increment per emitted event, under the success outcome
+func judgeSlowMetrics(sc slowCase, o slowObs) []failure {
+	if o.Metrics == nil || o.Events == 0 {
+		return nil
+	}
+	total := 0
+	for _, v := range o.Metrics {
+		total += v
+	}
+	if total != o.Events {
+		return []failure{{"metrics:slow-handoff:not-once", fmt.Sprintf("accepted authentication %q, hand-off pending for %d ms: %d event(s) emitted but the login counter moved by %d (%v)", sc.Gen.Line, sc.DelayMs, o.Events, total, o.Metrics)}}
+	}
+	for k := range o.Metrics {
+		if !strings.HasSuffix(k, "/success") {
+			return []failure{{"metrics:slow-handoff:outcome", fmt.Sprintf("accepted authentication %q, hand-off pending for %d ms: succeeded event counted under %s", sc.Gen.Line, sc.DelayMs, k)}}
+		}
+	}
+	return nil
+}
+
+func judgeSlowForward(sc slowCase, o slowObs) []failure {
+	pid, _ := positiveDecimal(sc.Tok)
 	line := sc.Gen.Line
 	if strings.HasPrefix(o.Ret, "panic") {
 		return []failure{{"forward:slow-handoff:panic", "processing panicked: " + o.Ret}}
@@ -224,7 +372,8 @@ var slowForms = []string{"accepted_key", "accepted_cert", "accepted_password", "
 func slowStage(prop string, seed uint64, r *hutil.Rand, delays, outDir string) {
 	sum := hutil.NewSummary(prop, seed, "accepted-authentication lines (public key, certificate, password, public key with trailing text; generated field values) on a processor of their own "+
 		"(NewSshdProcessor + ProcessSshdLogEntry, every other one through SyslogIngester.Process): after the event is written nobody receives on the unbuffered logins channel for the stated time, "+
-		"the context is never cancelled, then one receive: exactly one login (pid, credential id, identity = the written event) must be there and the call returns nil; all scenarios run concurrently; "+
+		"the context is never cancelled, then one receive: exactly one login (pid, credential id, identity = the written event) must be there and the call returns nil (C05); meanwhile and afterwards the line's event has reached the "+
+		"writer exactly once, as one whole JSON line, before the hand-off completed (C10), and the login counter moved once per emitted event under the success outcome (C19) - the stage reports the failures of the property it runs for; all scenarios run concurrently; "+
 		"non-trivial = a login was taken after the wait; distinct by (line, delay)")
 	debug := seed%2 == 1
 	sshd.SetLogger(hutil.Logger(debug))
@@ -243,7 +392,7 @@ func slowStage(prop string, seed uint64, r *hutil.Rand, delays, outDir string) {
 		go func(i int) {
 			defer wg.Done()
 			obs[i] = runSlow(cases[i], abort)
-			if len(judgeSlow(cases[i], obs[i])) > 0 {
+			if len(judgeSlow(prop, cases[i], obs[i])) > 0 {
 				once.Do(func() { close(abort) })
 			}
 		}(i)
@@ -270,7 +419,12 @@ func slowStage(prop string, seed uint64, r *hutil.Rand, delays, outDir string) {
 		if i < 4 {
 			sum.Sample(map[string]any{"pid_token": sc.Tok, "line": sc.Gen.Line, "nobody_receives_for_ms": sc.DelayMs, "observed": o})
 		}
-		for _, f := range judgeSlow(sc, o) {
+		for _, w := range o.Writes {
+			if w.Same {
+				sum.Dist("event_written_again_while_pending")
+			}
+		}
+		for _, f := range judgeSlow(prop, sc, o) {
 			if !reported[f.key] {
 				reported[f.key] = true
 				sum.FailKey("oracle", f.key, f.what, map[string]any{"slow_case": sc, "observed": o})
@@ -280,10 +434,10 @@ func slowStage(prop string, seed uint64, r *hutil.Rand, delays, outDir string) {
 	sum.Write(outDir)
 }
 
-func replaySlow(sc slowCase) int {
+func replaySlow(prop string, sc slowCase) int {
 	sshd.SetLogger(hutil.Logger(sc.Debug))
 	o := runSlow(sc, make(chan struct{}))
-	fs := judgeSlow(sc, o)
+	fs := judgeSlow(prop, sc, o)
 	for _, f := range fs {
 		fmt.Printf("REPRODUCED %s: %s\n", f.key, f.what)
 	}
